@@ -355,6 +355,13 @@ def gen_fault_entry(rng, kind, sid, tbl, exclude=()):
                 ("qartod", "rate_of_change_test", {}),
                 ("qartod", "flat_line_test", {"tolerance": 1}),
             ]
+        if {"time", "z"} <= have:
+            good = {"tspan": ["2019-01-01", "2022-01-01"], "vspan": [-8, 8]}
+            opts += [
+                ("qartod", "climatology_test", {"config": [good, {"tspan": [1, 6], "vspan": [0, 1], "period": "fortnight"}]}),
+                ("qartod", "climatology_test", {"config": [good, {"tspan": [1, 6, 9], "vspan": [0, 1], "period": "month"}]}),
+                ("qartod", "climatology_test", {"config": [{"tspan": [1, 6], "vspan": [0, 1, 2], "period": "month"}, good]}),
+            ]
         if {"lat", "lon"} <= have:
             opts += [("qartod", "location_test", {"bbox": [0, 1, 2]})]
         opts = [o for o in opts if (o[0], o[1]) not in exclude]
